@@ -259,7 +259,7 @@ fn truncate(s: &str, n: usize) -> String {
 fn accepted_spec(raw: &RawGrammar, st: &mut Stats) -> Option<(Spec, Analysis)> {
     let (spec, _) = gen::build(raw);
     let cfg = spec.cfg();
-    if cfg.n_n > 12 || cfg.rules.len() > 40 {
+    if cfg.n_n > 26 || cfg.rules.len() > 64 {
         st.discard("grammar too large for the compiled tier");
         return None;
     }
